@@ -157,6 +157,13 @@ static void runAll(const std::string &src, unsigned mask) {
     } catch (occa::exception &e) {
       res->threw |= (1 << i);     // reporting through occa::exception is allowed by the property
     }
+    // what ~parser_t does after a build: release everything this input left behind (a defect here
+    // must be charged to this input, not to the next one that happens to reuse the parser)
+    try {
+      p.clear();
+    } catch (occa::exception &e) {
+      res->threw |= (1 << i);
+    }
   }
   res->current = NP;
 }
